@@ -108,6 +108,9 @@ for _n in ('atan2', 'pow', 'hypot', 'fmod'):
     LIBM_UF[_n + 'f'] = (_n, 2)
 
 
+MEMSET_ZERO = z3.RealVal(0)   # the value of the 4-byte cells written by llvm.memset(p, 0, n); identity-tested in mload
+
+
 class Exec:
     def __init__(self, mod, ufs):
         self.mod = mod
@@ -243,6 +246,10 @@ class Exec:
                 hi = mem.get(p[1], {}).get(p[2] + 4)
                 if hi is not None and hi[1] == 4:
                     return ('raw64', val, hi[0])
+            if k == 'double' and sz == 8 and csz == 4 and val is MEMSET_ZERO:
+                hi = mem.get(p[1], {}).get(p[2] + 4)
+                if hi is not None and hi[1] == 4 and hi[0] is MEMSET_ZERO:
+                    return z3.RealVal(0)   # 8 zero bytes written by memset(0), read back as a double: +0.0
             raise NotEligible('load size %d over cell of size %d' % (sz, csz))
         if k in ('float', 'double') and isinstance(val, tuple) and val and val[0] == 'raw64':
             raise NotEligible('float load over packed raw value')
@@ -743,7 +750,7 @@ class Exec:
                 if d[2] <= o < d[2] + n:
                     del b[o]
             for o in range(0, n, 4):
-                b[d[2] + o] = (z3.RealVal(0), 4)
+                b[d[2] + o] = (MEMSET_ZERO, 4)
             return
         base = re.sub(r'\.(f32|f64|v\d+f(32|64))$', '', name)
         if base in ('llvm.fabs',):
@@ -813,6 +820,32 @@ def z3_to_float(v):
     return float(str(v))
 
 
+def angles_from_model(model, ufs, invars, vals):
+    """counterexample reporting only: sin/cos are uninterpreted, so the model's value of an angle input `a` is unrelated to
+    its values of sin(a), cos(a).  Where sin is applied to an input variable (or rational multiple k*a), report
+    a := atan2(sin, cos) / k instead, so that the native replay sees the sine/cosine the solver chose."""
+    done = set()
+    for (args, r) in ufs.apps.get('sin', []):
+        try:
+            x, k = args[0], 1.0
+            if z3.is_mul(x) and x.num_args() == 2 and z3.is_rational_value(x.arg(0)):
+                k, x = z3_to_float(x.arg(0)), x.arg(1)
+            n = str(x)
+            if not (z3.is_const(x) and n in invars and invars[n].eq(x)) or n in done or k == 0:
+                continue
+            c = ufs._get('cos', args)
+            if c is None:
+                continue
+            sv = z3_to_float(model.eval(r, model_completion=True))
+            cv = z3_to_float(model.eval(c, model_completion=True))
+            if sv == 0 and cv == 0:
+                continue
+            vals[n] = math.atan2(sv, cv) / k
+            done.add(n)
+        except Exception:
+            continue
+
+
 def main():
     job = json.load(open(sys.argv[1]))
     t0 = time.time()
@@ -867,7 +900,17 @@ def main():
             res = None
             model = None
             engine = None
-            for tactic in job.get('engines', ['default', 'groebner', 'nlsat']):
+            for tactic in job.get('engines') or os.environ.get('LL2SMT_ENGINES', 'default,groebner,nlsat').split(','):
+                if tactic == 'split':   # opt-in (LL2SMT_ENGINES): case split on ite conditions, leaves by z3 / Groebner, see rsplit.py
+                    try:
+                        import rsplit
+                        st, mdl, sstats = rsplit.prove(hyps + ufs.axioms, g, timeout, [r_ for l_ in ufs.apps.values() for (a_, r_) in l_])
+                        if st is not None:
+                            res, model, engine = st, mdl, 'rsplit-case-split(z3-%s+groebner)' % z3.get_version_string()
+                            break
+                    except Exception as e:
+                        out['detail'] += ' split(%s): %s' % (name, str(e)[:200])
+                    continue
                 if tactic == 'groebner':
                     try:
                         import rgroebner
@@ -905,6 +948,7 @@ def main():
                         vals[n] = z3_to_float(mv)
                     except Exception:
                         vals[n] = 0.0
+                angles_from_model(model, ufs, invars, vals)
                 out['inputs'][name] = vals
         out['status'] = 'done'
         out['ufs'] = sorted(ufs.used)
